@@ -32,8 +32,9 @@ def data_of(cls: str, n: int, rnd: random.Random) -> bytes:
 
 def forge(pt_stream: bytes, enc: str, ser: str):
     """authenticated JWE whose (already compressed) plaintext is pt_stream"""
-    jwk = K.get("oct128")
-    parts = R.jwe_encrypt({"alg": "A128KW", "enc": enc, "zip": "DEF"}, pt_stream, [{"jwk": jwk}], raw_deflate=lambda b: b)
+    alg, enc = enc.split("/") if "/" in enc else ("A128KW", enc)
+    jwk = K.get(K.jwe_key_kind(alg, enc))
+    parts = R.jwe_encrypt({"alg": alg, "enc": enc, "zip": "DEF", **({"p2c": 8} if alg.startswith("PBES2") else {})}, pt_stream, [{"jwk": jwk}], raw_deflate=lambda b: b)
     tok = R.jwe_compact(parts) if ser == "compact" else R.jwe_json(parts, flattened=(ser == "flattened"))
     return tok, jwk
 
@@ -41,7 +42,8 @@ def forge(pt_stream: bytes, enc: str, ser: str):
 def decrypt(tok, jwk, enc, ser, measure=False):
     from joserfc import jwe
     from joserfc.errors import ExceededSizeError
-    reg = jwe.JWERegistry(algorithms=["A128KW", enc, "DEF"])
+    alg, enc = enc.split("/") if "/" in enc else ("A128KW", enc)
+    reg = jwe.JWERegistry(algorithms=[alg, enc, "DEF"])
     key = J.jkey(jwk)
     peak = None
     if measure:
@@ -265,6 +267,12 @@ def _run(ctx: Ctx, fresh) -> None:
         for cls in classes:
             for j, ser in enumerate(("compact", "flattened", "general")):
                 cases.add((cls, n, encs[(n + j) % len(encs)], ser, "raw", ctx.seed))
+    # every row: each content encryption and each key-management algorithm meets the limit from both sides (the bound belongs to
+    # the zip step, whatever carries the plaintext)
+    rows = [e for e in R.ENC] + [a + "/A128GCM" for a in R.JWE_ALGS if a != "A128KW"]
+    for r_i, row in enumerate(rows):
+        for l_i, n in enumerate((CAP, CAP + 1, CAP + 259, 2 * CAP)):
+            cases.add((classes[(r_i + l_i) % 3], n, row, ("compact", "flattened", "general")[(r_i + l_i) % 3], "raw", ctx.seed))
     cases = sorted(cases)
     J.register_drafts({"chacha"})
     import multiprocessing as mp
